@@ -328,7 +328,7 @@ inline int worker_main(Engine& eng, int argc, char** argv) {
     for (std::uint64_t i = start; i < total && i <= until; i += stride) {
         Plan plan; bool sweep = i < nsweep; std::uint64_t seed = 0;
         if (sweep) { eng.sweep_plan(i, plan); plan.head.setu("sweep", i); }
-        else { seed = run_seed(batch, eng.name(), i - nsweep); Rng rng(seed); eng.generate(rng, plan); plan.head.setu("seed", seed); }
+        else { seed = run_seed(batch, (std::string(eng.name()) + ":" + prop).c_str(), i - nsweep); Rng rng(seed); eng.generate(rng, plan); plan.head.setu("seed", seed); }
         RunResult rr; eng.execute(plan, rr, st);
         st.runs++; st.steps += (std::uint64_t)rr.steps_done; if (sweep) st.sweep_runs++;
         if (hashes) std::printf("H %llu %016llx\n", (unsigned long long)i, (unsigned long long)rr.log.h);
